@@ -2,10 +2,52 @@
     store.  A stored name stands for one node ([sto_fun]), which is all the machine needs to skip
     equal links.  Lemma file. *)
 From Coq Require Import List NArith ZArith Lia Bool Sorted Arith.
-From Mast Require Import Prim Key Tree KeyOrder Codec CodecRT NameLen Store Diff World Erase Build Spec Canon Links Level Inv Persist Hist Reload DiffSpec.
+From Mast Require Import Prim Key Tree KeyOrder Codec CodecRT NameLen Store Diff World Erase Build Spec Canon Links Level Inv Persist Hist Reload DiffSpec DiffLinks.
 Import ListNotations.
 
 Opaque name_of blake2b_256 b64url crc64 uint_layer_fuel.
+
+Section FMT.
+Variable fmt : nfmt.
+Local Notation clone_allh := (Reload.clone_allh fmt) (only parsing).
+Local Notation cycles_ok := (Reload.cycles_ok fmt) (only parsing).
+Local Notation delete_allh := (Reload.delete_allh fmt) (only parsing).
+Local Notation entry_ok := (Reload.entry_ok fmt) (only parsing).
+Local Notation first_node_allh := (Reload.first_node_allh fmt) (only parsing).
+Local Notation flush_nonnil := (Reload.flush_nonnil fmt) (only parsing).
+Local Notation grow_allh := (Reload.grow_allh fmt) (only parsing).
+Local Notation grow_loop_allh := (Reload.grow_loop_allh fmt) (only parsing).
+Local Notation insert_allh := (Reload.insert_allh fmt) (only parsing).
+Local Notation kv_ok := (Reload.kv_ok fmt) (only parsing).
+Local Notation list_ok := (Reload.list_ok fmt) (only parsing).
+Local Notation list_ok_incl := (Reload.list_ok_incl fmt) (only parsing).
+Local Notation list_ok_remove := (Reload.list_ok_remove fmt) (only parsing).
+Local Notation load_canon := (Reload.load_canon fmt) (only parsing).
+Local Notation load_canon_empty := (Reload.load_canon_empty fmt) (only parsing).
+Local Notation name_ok := (Reload.name_ok fmt) (only parsing).
+Local Notation pcond := (Reload.pcond fmt) (only parsing).
+Local Notation pconds := (Reload.pconds fmt) (only parsing).
+Local Notation persist_then_load := (Reload.persist_then_load fmt) (only parsing).
+Local Notation pinv := (Reload.pinv fmt) (only parsing).
+Local Notation prun := (Reload.prun fmt) (only parsing).
+Local Notation pstep := (Reload.pstep fmt) (only parsing).
+Local Notation pstep_ok := (Reload.pstep_ok fmt) (only parsing).
+Local Notation resolve_sto := (Reload.resolve_sto fmt) (only parsing).
+Local Notation root_allh := (Reload.root_allh fmt) (only parsing).
+Local Notation root_allh_mono := (Reload.root_allh_mono fmt) (only parsing).
+Local Notation root_allh_of_node := (Reload.root_allh_of_node fmt) (only parsing).
+Local Notation root_node_allh := (Reload.root_node_allh fmt) (only parsing).
+Local Notation set_size_allh := (Reload.set_size_allh fmt) (only parsing).
+Local Notation shrink_allh := (Reload.shrink_allh fmt) (only parsing).
+Local Notation shrink_loop_allh := (Reload.shrink_loop_allh fmt) (only parsing).
+Local Notation stl := (Reload.stl fmt) (only parsing).
+Local Notation sto := (Reload.sto fmt) (only parsing).
+Local Notation sto_hered := (Reload.sto_hered fmt) (only parsing).
+Local Notation sto_l := (Reload.sto_l fmt) (only parsing).
+Local Notation sto_l_mono := (Reload.sto_l_mono fmt) (only parsing).
+Local Notation sto_mono := (Reload.sto_mono fmt) (only parsing).
+Local Notation sto_mono' := (Reload.sto_mono' fmt) (only parsing).
+Local Notation store_node_sto := (Reload.store_node_sto fmt) (only parsing).
 
 Lemma fits_le : forall f f' (n : knode), f <= f' -> fits key val f n -> fits key val f' n.
 Proof. intros f f' n H. induction H as [|f' _ IH]; intros F; [exact F|]. apply fits_mono. apply IH. exact F. Qed.
@@ -67,7 +109,6 @@ Lemma empty_root_allh s kind (m : kmast) : m_root _ _ m = LNil -> root_allh s ki
 Proof. unfold root_allh. intros ->. constructor. Qed.
 
 (** * C07: node diff over one store, and what a replica needs *)
-From Mast Require Import DiffLinks.
 
 Theorem k_diff_links s kind bf (mo mn : kmast) lo ln :
   kcanon bf mo lo -> kcanon bf mn ln -> root_allh s kind mo -> root_allh s kind mn ->
@@ -128,3 +169,4 @@ Proof.
   - exact (Hadd x b Ha Hl).
   - apply Hext. exact (Hold x b Ho' Hl).
 Qed.
+End FMT.
